@@ -984,6 +984,15 @@ impl WmoWriter {
         liquid: &WmoLiquid,
         target_version: WmoVersion,
     ) -> Result<()> {
+        // Width and height are stored minus one: a grid has at least one vertex
+        // in each direction
+        if liquid.width == 0 || liquid.height == 0 {
+            return Err(WmoError::InvalidFormat(format!(
+                "liquid grid of {}x{} vertices cannot be written",
+                liquid.width, liquid.height
+            )));
+        }
+
         // Calculate size based on version and content
         let vertex_size = if target_version >= WmoVersion::Wod {
             16
